@@ -31,6 +31,24 @@ pub fn gen(seed: u64, n: usize, _tier: &str) -> Vec<Case> {
                 2 => if !intx[c as usize] { ops.push(cmd_op(c, &[b"MULTI"])); intx[c as usize] = true; } else { ops.push(cmd_op(c, &[b"EXEC"])); intx[c as usize] = false; },
                 3 => if intx[c as usize] { ops.push(cmd_op(c, &[if r.chance(1, 3) { b"DISCARD" } else { b"EXEC" }])); intx[c as usize] = false; } else { ops.push(cmd_op(c, &[b"FLUSHDB"])); },
                 4 => if r.chance(1, 4) { ops.push(cmd_op(c, &[b"FLUSHALL"])) } else { ops.push(cmd_op(c, &[b"DBSIZE"])) },
+                5 | 6 if !intx[c as usize] => {
+                    // a pipelined batch in ONE write: SELECT in the middle of data commands
+                    let mut data = vec![];
+                    for _ in 0..(2 + r.below(5)) {
+                        let k = *r.pick(c01::KEYS);
+                        let v: Vec<&[u8]> = match r.below(8) {
+                            0 | 1 => vec![b"SELECT", *r.pick(DBS)],
+                            2 => vec![b"SET", k, b"piped"],
+                            3 => vec![b"GET", k],
+                            4 => vec![b"INCR", k],
+                            5 => vec![b"APPEND", k, b"+"],
+                            6 => vec![b"DBSIZE"],
+                            _ => if r.chance(1, 3) { vec![b"FLUSHDB"] } else { vec![b"DEL", k] },
+                        };
+                        crate::resp::V::cmd(&v).wire(&mut data);
+                    }
+                    ops.push(raw_op(c, &[data]));
+                }
                 _ => { let v = c01::gen_cmd(&mut r); if v[0] != b"RANDOMKEY" || !intx[c as usize] { push_cmd(&mut ops, c, &v); } }
             }
         }
